@@ -97,7 +97,7 @@ def main():
         # checks: a private copy of /verif (so that development in /verif can go on) run against the worktree
         # that carries the change (MRPRO_REPO); equivalent to applying the patch to /repo, which stays untouched
         checks = [] if args.suite_only else [args.prop] + [c for c in args.checks.split(',') if c and c != args.prop]
-        sv = Path('/tmp/verif_seed')
+        sv = Path('/tmp/verif_seed' + os.environ.get('SEED_SLOT', ''))
         sh(f'mkdir -p {sv} && rsync -a --delete --exclude .git --exclude seeded --exclude replays /verif/ {sv}/')
         results = {}
         for c in checks:
